@@ -12,7 +12,7 @@ class C06(C05):
                  'bounded-exhaustive enumeration of body trees; metamorphic: minimal vs full parenthesisation')
     rule = ('(a) random body trees up to 7 leaves over calls, =, \\=, true, fail, !, ",", ";", "->", (->;), \\+ nested '
             'arbitrarily, printed either with the minimal parentheses implied by "," < "->" < ";" (right-associative) '
-            'or fully parenthesised - both must behave like the tree; (b) bounded-exhaustive bodies (<= 2 leaves and a quarter of the 3-leaf ones; thorough: all <= 3 leaves and all 4-leaf ones without negation) '
+            'or fully parenthesised - both must behave like the tree; directed families in 3 cases of 8: a body-only variable first bound inside a branch that is not always taken and used afterwards on every path; a branch ending in a cut followed by a row of 2-4 two-way choices in the same body; sibling branches that differ only in a quoted atom printing like a variable / structure; also cut idioms, bodies of 10-18 goals with a late cut, programs loaded as two scripts; (b) bounded-exhaustive bodies (<= 2 leaves and a quarter of the 3-leaf ones; thorough: all <= 3 leaves and all 4-leaf ones without negation) '
             'containing ";", "->" or \\+. Answers compared with reference R. Non-trivial = the reference run took an '
             'if-then-else/\\+ decision or a disjunction, and the program has >= 2 answers or nesting of two control '
             'constructs; distinct = SHA-1 of program text + queries.')
